@@ -127,13 +127,24 @@ func rank(k Key) int {
 }
 
 func project(v any) Val {
+	budget := 200000
+	return projectD(v, 0, &budget)
+}
+
+// projectD bounds depth and size: a value that contains itself (possible only if a container was mutated
+// in place) must become a rejected observation, not a crash of the executor.
+func projectD(v any, depth int, budget *int) Val {
+	*budget--
+	if depth > 40 || *budget < 0 {
+		return Val{T: "other:too-deep", E: []Val{}, Ks: []Key{}}
+	}
 	switch v := v.(type) {
 	case int:
 		return atom(v)
 	case vals.List:
 		out := Val{T: "l", E: make([]Val, 0, v.Len()), Ks: []Key{}}
 		for it := v.Iterator(); it.HasElem(); it.Next() {
-			out.E = append(out.E, project(it.Elem()))
+			out.E = append(out.E, projectD(it.Elem(), depth+1, budget))
 		}
 		return out
 	case vals.Map:
@@ -148,7 +159,7 @@ func project(v any) Val {
 			if !ok {
 				return Val{T: "other:mapkey", E: []Val{}, Ks: []Key{}}
 			}
-			ps = append(ps, kv{keyOf(ks), project(val)})
+			ps = append(ps, kv{keyOf(ks), projectD(val, depth+1, budget)})
 		}
 		sort.SliceStable(ps, func(i, j int) bool { return rank(ps[i].k) < rank(ps[j].k) })
 		out := Val{T: "m", E: []Val{}, Ks: []Key{}}
@@ -184,7 +195,7 @@ func lit(v Val) string {
 		}
 		return "[" + strings.Join(parts, " ") + "]"
 	}
-	panic("cannot render " + v.T)
+	return "<" + v.T + ">" // only in messages: never produced by the model or the generators
 }
 
 func pathText(p []Key) string {
